@@ -1,5 +1,6 @@
 mod cnf_props;
 mod common;
+mod conc_props;
 mod core_props;
 mod enum_props;
 mod optimal_props;
@@ -33,6 +34,9 @@ fn main() {
         "C04" => core_props::c04(&a),
         "C05" => core_props::c05(&a),
         "C06" => enum_props::c06(&a),
+        "C14" => conc_props::c14(&a),
+        "C15" => conc_props::c15(&a),
+        "C17" => conc_props::c17(&a),
         "C16" => history_props::c16(&a),
         "C19" => cnf_props::c19(&a),
         "C20" => optimal_props::c20(&a),
